@@ -67,6 +67,16 @@ def strip_comments(src):
     return "".join(out)
 
 
+def layout(src):
+    """layout-insensitive form: one space for every run of white space, none inside brackets' edges, no trailing comma
+    before a closing bracket — a reformatted source (other line width, wrapped parameter lists) reads the same"""
+    src = re.sub(r"\s+", " ", src)
+    src = re.sub(r",\s*([)\]}])", r"\1", src)
+    src = re.sub(r"([(\[])\s+", r"\1", src)
+    src = re.sub(r"\s+([)\]])", r"\1", src)
+    return src
+
+
 def bodies(src, rx):
     """texts of all definitions (signature .. matching closing brace) whose signature matches rx"""
     res = []
@@ -101,7 +111,7 @@ def main():
         p = os.path.join(repo, rel)
         if rel not in cache:
             try:
-                cache[rel] = strip_comments(open(p, errors="replace").read())
+                cache[rel] = layout(strip_comments(open(p, errors="replace").read()))
             except OSError:
                 cache[rel] = ""
         bs = bodies(cache[rel], rx)
